@@ -857,30 +857,30 @@ def rule_funcinit(chk, prog, tier):
                     if prev is None: head = Ptr(o, ())
                     else: prev.f[('next',)] = Ptr(o, ())
                     prev = o
-                offs = {id(base.obj): 0}
+                offs = {base.obj.id: 0}
                 def funcinst(i2, a, e):
                     f, op, cls, a0, a1 = a
                     opn = names.get(op, op)
                     rv = cmodel.val('t%d' % (len(i2.events) + 1))
                     if opn == 'IADD':
-                        if not (isinstance(a0, Ptr) and id(a0.obj) in offs and isinstance(a1, tuple) and a1[0] == 'const'):
+                        if not (isinstance(a0, Ptr) and a0.obj.id in offs and isinstance(a1, tuple) and a1[0] == 'const'):
                             raise Unsupported('address arithmetic %r + %r' % (a0, a1))
-                        offs[id(rv.obj)] = offs[id(a0.obj)] + a1[1]
+                        offs[rv.obj.id] = offs[a0.obj.id] + a1[1]
                     elif opn in STORE:
-                        if not (isinstance(a1, Ptr) and id(a1.obj) in offs): raise Unsupported('store to unknown address')
+                        if not (isinstance(a1, Ptr) and a1.obj.id in offs): raise Unsupported('store to unknown address')
                         zv = a0
                         isz = isinstance(zv, Ptr) and i2.load(zv.obj, zv.path + ('kind',)) == ev(prog, 'VALUE_INTCONST') and (i2.load(zv.obj, zv.path + ('u', 'i')) in (0, UNINIT, None))
                         if not isz: raise Unsupported('store of non-zero by zero()')
-                        i2.event('zero', offs[id(a1.obj)], STORE[opn])
+                        i2.event('zero', offs[a1.obj.id], STORE[opn])
                     else:
                         raise Unsupported('instruction %s in funcinit' % opn)
                     return rv
                 def funcstore(i2, a, e):
                     f, t, tq, lval, v = a
                     addr = lval.f[('addr',)]
-                    if not (isinstance(addr, Ptr) and id(addr.obj) in offs): raise Unsupported('funcstore to unknown address')
+                    if not (isinstance(addr, Ptr) and addr.obj.id in offs): raise Unsupported('funcstore to unknown address')
                     tsz = i2.load(t.obj, t.path + ('size',))
-                    i2.event('store', offs[id(addr.obj)], tsz, lval.f.get(('bits', 'before'), 0), lval.f.get(('bits', 'after'), 0), v)
+                    i2.event('store', offs[addr.obj.id], tsz, lval.f.get(('bits', 'before'), 0), lval.f.get(('bits', 'after'), 0), v)
                     return v
                 def funcexpr(i2, a, e):
                     return getattr(a[1].obj, 'ilabel', ('?',))
